@@ -539,7 +539,26 @@ class _FragmentCompiler:
                 clk_polarity = 1 if domain.clk_edge == "pos" else 0
                 self.state.add_signal_waker(domain.clk, edge_waker(domain_process, clk_polarity))
                 if domain.async_reset and domain.rst is not None:
-                    self.state.add_signal_waker(domain.rst, edge_waker(domain_process, 1))
+                    # An asynchronous reset takes effect without a clock edge, but nothing else in
+                    # the domain does (reset-less signals and memory ports are not clocked by it), so
+                    # the assertion of the reset is handled by a process of its own.
+                    reset_process = PyRTLProcess(is_comb=False)
+                    self.state.add_signal_waker(domain.rst, edge_waker(reset_process, 1))
+                    reset_emitter = _PythonEmitter()
+                    reset_emitter.append(f"def run():")
+                    reset_emitter._level += 1
+                    reset_emitter.append(f"pass")
+                    for (signal, mask) in lhs_masks.masks():
+                        if signal.reset_less:
+                            continue
+                        if signal.shape().signed and (mask & 1 << (len(signal) - 1)):
+                            mask |= -1 << len(signal)
+                        signal_index = self.state.get_signal(signal)
+                        reset_emitter.append(f"slots[{signal_index}].update({signal.init}, {mask})")
+                    reset_locals = {"slots": self.state.slots}
+                    exec(compile(reset_emitter.flush(), "<string>", "exec"), reset_locals)
+                    reset_process.run = reset_locals["run"]
+                    processes.add(reset_process)
 
                 for (signal, _) in lhs_masks.masks():
                     signal_index = self.state.get_signal(signal)
